@@ -401,7 +401,19 @@ class World:
 
             def child_fn2():
                 self.masters.pop(child.pid, None)
-                clone.reexec()
+                try:
+                    clone.reexec()
+                except (SystemExit, KeyboardInterrupt):
+                    raise
+                except Exception:
+                    # The real child is a copy of the master *inside* run() -> handle_usr2() -> reexec(): whatever reexec() raises there
+                    # lands in the exception clause of Arbiter.run().  The re-entered child has no such frames, so that clause is replayed
+                    # here verbatim (gunicorn/arbiter.py, `except Exception:` of run()).
+                    clone.log.error("Unhandled exception in main loop", exc_info=True)
+                    clone.stop(False)
+                    if clone.pidfile is not None:
+                        clone.pidfile.unlink()
+                    sys.exit(-1)
             return child_fn2
         raise HarnessError("fork() from the master outside spawn_worker/reexec")
 
